@@ -24,7 +24,7 @@ ASSUMPTIONS = ["outcomes drawn from the reference Born distribution at the initi
 @st.composite
 def runs(draw, tier):
     t = draw(st.sampled_from(gen.TYPES))
-    sc = draw(gen.state_case(types=[t], n=(1, 3), nh=(1, 3), na=(1, 2), scales=[0.05, 0.5, 0.5, 2.0], bound=40.0))
+    sc = draw(gen.state_case(types=[t], n=(1, 3), nh=(1, 3), na=(1, 2), scales=[0.05, 0.5, 0.5, 2.0, 2.0, 8.0, 20.0], bound=45.0))
     n = sc["n"]
     interesting = draw(st.integers(0, 2)) > 0   # construct (not filter) the class the rule calls non-trivial
     if interesting:
@@ -41,6 +41,8 @@ def runs(draw, tier):
     for i in range(N):
         b = "Z" * n if (t == "positive" or i == 0) else draw(st.sampled_from(allb))
         rows.append({"basis": b, "u": draw(U01)})
+        if draw(st.integers(0, 11)) == 0:
+            rows[-1]["rare"] = True        # the least likely outcome in that basis (data need not be typical of the model)
     if draw(st.integers(0, 19)) == 0:
         nbs = draw(st.sampled_from([129, 150, 200, 300]))      # many negative-phase chains (drawn with replacement from the data)
     return {"state": sc, "rows": rows, "pbs": pbs, "nbs": nbs,
